@@ -47,6 +47,7 @@ type Scenario struct {
 	Enc            string   `json:"enc"`                   // ascii | sjis | utf8 | raw-utf8 | raw-sjis
 	DecoSeed       uint64   `json:"deco_seed"`
 	CRLF           bool     `json:"crlf,omitempty"`
+	BOM            bool     `json:"bom,omitempty"`       // the file (and its comment-free form) starts with a UTF-8 byte order mark
 	MixedEOL       uint64   `json:"mixed_eol,omitempty"` // != 0: every line end is LF or CRLF, chosen per line from this seed
 	NoFinalNL      bool     `json:"no_final_nl,omitempty"`
 	Bulk           int      `json:"bulk,omitempty"`       // >0: blocks of this many own-line comment lines are inserted (large files)
@@ -211,6 +212,16 @@ func breakLine(kind int, l string) string {
 
 // materialise returns (bytes of the source file as written, bytes of its comment-free form).
 func (s *Scenario) materialise() (src []byte, plain []byte) {
+	src, plain = s.materialise0()
+	if s.BOM {
+		bom := []byte{0xEF, 0xBB, 0xBF}
+		src = append(append([]byte{}, bom...), src...)
+		plain = append(append([]byte{}, bom...), plain...)
+	}
+	return
+}
+
+func (s *Scenario) materialise0() (src []byte, plain []byte) {
 	lines := append(append([]string(nil), s.Header...), s.Body...)
 	if s.Break > 0 && len(lines) > 0 {
 		lines[s.BreakLine%len(lines)] = breakLine(s.Break-1, lines[s.BreakLine%len(lines)])
